@@ -122,6 +122,22 @@ def run(ck, tier):
                 base_ok = bool(cuts) and all(("arg", 2) in flatten(pv.trace_operand(f.blocks[o[1]]["t"]["args"][0])) for o in cuts)
                 ck.decide(rule, "run_on_chunk:%s" % last(d_), base_ok, f.loc(t["ln"]), "receives a range-indexed sub-slice of the `chunk` parameter: %s" % base_ok)
         ck.floor(rule, "pattern calls in run_on_chunk", n, 2)
+    match_to_lint_locality(ck, p, rule)
+    _lexlocal(ck, p, byk)
+    # shared rule instances
+    c05._key(c05._Sub(_only(ck, ("chunk-cache:rebase", "chunk-cache:get:chars", "chunk-cache:put:chars")), "R-C12-rebase", ""), p, byk)
+    c02._condense(c05._Sub(ck, "R-C12-condense", ""), p, byk)
+    c02._stale(c05._Sub(ck, "R-C12-stale", ""), p, byk)
+    c02._tile(c05._Sub(_only(ck, "PlainEnglish::parse:only-grows"), "R-C12-tile", ""), p, byk)
+
+
+def _only(ck, keep):
+    from .c03 import _Only
+    return _Only(ck, keep)
+
+
+def match_to_lint_locality(ck, p, rule):
+    """how the match_to_lint bodies use `source` (shared with C05: the chunk cache is only sound if they look only inside the chunk)"""
     # match_to_lint bodies: how `source` is used
     impls = p.impls_of_method("harper_core::linting::pattern_linter::PatternLinter::match_to_lint")
     ck.floor(rule, "impls of PatternLinter::match_to_lint", len(impls), 40)
@@ -152,22 +168,14 @@ def run(ck, tier):
                         elif m in ("index", "get", "deref", "as_ref", "iter", "len"):
                             if m in ("index", "get"):
                                 bad.append((m, t["ln"]))
-        if bad:
+        direct = [(m_, ln_) for (m_, ln_) in bad if m_ in ("index", "get")]
+        if direct:
+            ck.refuted(rule, "match_to_lint:%s" % keyname(p, f), f.loc(direct[0][1]), "match_to_lint indexes `source` directly (%s) instead of reading it through the spans of the matched tokens: it can look at characters next to the match - in the previous clause or paragraph - which neither the chunk nor the chunk-cache key covers, so the same clause gets different lints depending on what precedes it (and a long-lived linter replays whichever answer it cached first)" % ", ".join(sorted({m_ for m_, _ in direct})))
+        elif bad:
             ck.undecided(rule, "match_to_lint:%s" % keyname(p, f), f.span, "`source` is used other than through spans of the matched tokens: %s" % bad[:3])
         else:
             ok_n += 1
     ck.proved(rule, "match_to_lint:source-through-matched-spans", "", "%d of %d match_to_lint bodies read `source` only through spans derived from (or helpers that also receive) the matched tokens" % (ok_n, len(impls)))
-    _lexlocal(ck, p, byk)
-    # shared rule instances
-    c05._key(c05._Sub(_only(ck, ("chunk-cache:rebase", "chunk-cache:get:chars", "chunk-cache:put:chars")), "R-C12-rebase", ""), p, byk)
-    c02._condense(c05._Sub(ck, "R-C12-condense", ""), p, byk)
-    c02._stale(c05._Sub(ck, "R-C12-stale", ""), p, byk)
-    c02._tile(c05._Sub(_only(ck, "PlainEnglish::parse:only-grows"), "R-C12-tile", ""), p, byk)
-
-
-def _only(ck, keep):
-    from .c03 import _Only
-    return _Only(ck, keep)
 
 
 BACKSCAN = {"rev", "rposition", "rfind", "rfind_map", "next_back", "nth_back", "rfold", "try_rfold", "last", "ends_with", "strip_suffix",
